@@ -15,24 +15,24 @@ const (
 	// inverted join entered from the foreign-key side: iteration ends at the first related
 	// document without (matching) holders
 	sigStop = "C09/join-inverted/stops-at-related-without-holders"
-	// same call site, symptom: the abandoned index iterator makes Txn.Discard panic
-	sigStopPanic = "C09/join-inverted/unclosed-iterator-after-early-stop"
 	// inverted join entered from the foreign-key side: the queried type's own filter is lost
 	sigOwnDrop = "C09/join-inverted/own-filter-of-holder-side-dropped"
-	// inverted join entered from the related side: the by-docID lookup of the queried document is
-	// served by the index of its own filter and returns the first index entry instead
-	sigLookup = "C09/join-inverted/lookup-by-id-ignored-when-own-filter-indexed"
+	// inverted join entered from the related side: the by-docID lookup of the queried document goes
+	// through a scan that uses the index chosen for its own filter or own order and returns the
+	// first index entry instead
+	sigLookup = "C09/join-inverted/lookup-by-id-ignored-by-index-scan"
 	// inversion by order drops rows without related document
 	sigOrderDrop = "C09/order-inverted/rows-without-related-dropped"
 	// inversion by a negated filter operator drops rows without related document
 	sigNegDrop = "C09/filter-inverted/negated-operator-rows-without-related-dropped"
 	// 1-1 secondary side id filter
 	sigSecondary = "C09/member/secondary-id-filter/never-matches"
-	// _in on an indexed field: iterator not closed when the scan is restarted or abandoned
+	// _in on an indexed field: iterator not closed when the scan is restarted or abandoned (also
+	// when the inverted join of sigStop abandons it)
 	sigInPanic = "C09/panic/in-operator-on-indexed-field-unclosed-iterator"
 )
 
-var knownSigs = []string{sigStop, sigStopPanic, sigOwnDrop, sigLookup, sigOrderDrop, sigNegDrop, sigSecondary, sigInPanic}
+var knownSigs = []string{sigStop, sigOwnDrop, sigLookup, sigOrderDrop, sigNegDrop, sigSecondary, sigInPanic}
 
 type defects struct {
 	stop, ownDrop, orderDrop, negDrop, lookup bool
@@ -190,12 +190,12 @@ func (w *world) explainDiff(b built, plan planInfo, planName string, ref, got []
 		return ""
 	case "filter-from-related", "order-from-related":
 		r := w.tp.Rels[b.rel]
-		if b.q.Own && w.c.idxN(r.To) && act.lookup {
+		if (b.q.Own || b.q.OwnOrder > 0) && w.c.idxN(r.To) && act.lookup {
 			// every by-docID lookup of a related-side document returns the first entry of the index
-			// that serves the own filter: all rows are that one document
+			// that serves the own filter / own order: all rows are that one document
 			var first *mdoc
-			for _, t := range w.indexOrder(r.To, false) {
-				if holds(b.q.Op2, t.n, b.q.V2) {
+			for _, t := range w.indexOrder(r.To, b.q.OwnOrder == 2) {
+				if !b.q.Own || holds(b.q.Op2, t.n, b.q.V2) {
 					first = t
 					break
 				}
@@ -248,16 +248,6 @@ func (w *world) explainPanic(b built, indexedNode bool, text string) string {
 			(b.q.Own && b.q.Op2 == "_in" && w.c.idxN(own)) ||
 			(b.class == "relation-filter-with-filtered-sub-selection" && b.q.Op2 == "_in" && w.c.idxN(r.From)) {
 			return sigInPanic
-		}
-	}
-	if rec.IsKnown(sigStopPanic) && b.fromTo && w.c.idxN(r.To) &&
-		(b.class == "filter-from-holder" || b.class == "count-filter-from-holder" || b.class == "order-from-holder") {
-		// the early stop must actually happen: a visited related document without holders
-		for _, t := range w.live(r.To) {
-			visited := b.class == "order-from-holder" || matches(b.q.Op, t.n, b.q.V, true)
-			if visited && len(w.holders(b.rel, t.id)) == 0 {
-				return sigStopPanic
-			}
 		}
 	}
 	return ""
